@@ -14,6 +14,9 @@ R05c try_acquire_lock takes the lock only if every locked block is an ancestor o
 R05d End block ends an *active* block: visit_EndBlockNode chooses among the locked blocks that are not already ended (an ended
      block keeps its lock until the instruction it is executing finishes; ending it a second time leaves the enclosing block
      running for ever).
+R05e no block, no name: when the interpreter is replaced (Engine._stop_interpreter, reached by Stop and Restart) the Block tag is
+     written None on every path - the new interpreter has no active block, and a restarted run would otherwise execute its
+     root-level lines under the name of the block that was active when the previous run ended.
 Decides these shapes; the single-chain invariant over all reachable interpreter states is data-dependent.
 """
 from __future__ import annotations
@@ -214,6 +217,18 @@ def run(ctx) -> None:
         else:
             ctx.fail("R05c", vb, lp.ast, inst, f"the iterated expression `{src[1]}` is not derived from the lock flags")
     _r05d(ctx, pi)
+    ctx.rule("R05e", "the Block tag is cleared when the interpreter is replaced")
+    si = prog.func("openpectus.engine.engine:Engine._stop_interpreter")
+    ctx.analysed(si)
+    gs = cfg_of(si)
+    clears = lambda n: n.ast is not None and any(call_attr(c) == "set_value" and "SystemTagName.BLOCK]" in norm(c.func) and c.args
+                                                 and isinstance(c.args[0], ast.Constant) and c.args[0].value is None for c in n.calls())
+    inst = "Engine._stop_interpreter: Block tag := None on every path"
+    if any(clears(n) for n in gs.nodes) and gs.path_to_exit_avoiding(None, clears, follow_exc=False) is None:
+        ctx.ok("R05e", inst)
+    else:
+        ctx.fail("R05e", si, si.node, inst, "Stop and Restart replace the interpreter without clearing the Block tag: after a Restart inside Block A "
+                 "the new run executes its root-level lines with Block = 'A' although no block is active")
 
 
 def _lock_source(ctx, expr, f, depth):
